@@ -141,7 +141,7 @@ CLAIMED = {
         "Correspondence: the real binary, serial and -j 2..4: the fake engine sends SIGINT to the CLI at its k-th request for every k (thorough) / a spread incl. the CREATE and DROP phases (quick), and --fail-fast with the failing file at every position: "
         "exit status, no session or SQL after the interrupt, every session reaches EOF, every CREATE has its DROP, JUnit with one case per file, termination, automaton acceptance with the Cancel event.",
    ref="4/C19", technique="Coq proof (observer automaton with Cancel + bookkeeping model) + signal injection at every request against the real binary",
-   note="Trusted: Coq kernel; partial: signal delivery latency (150 ms allowance inside a 400 ms grace), bounded-time exit (60 s limit) and kill_on_drop are runtime behaviour, observed not proved."),
+   note="Trusted: Coq kernel; partial: signal delivery latency (400 ms allowance inside a 600 ms grace), bounded-time exit (60 s limit) and kill_on_drop are runtime behaviour, observed not proved."),
  "C18": dict(
    text="Coq theorems C18_cover (for ANY hash function and count > 0 every path has exactly one partition id), C18_partition_exact, C18_exactly_one_id (over ids 0..N-1 every file of a glob lies in exactly one selection), "
         "C18_reject (count 0, id >= count, count without id are rejected), C18_single_file_not_filtered, C18_pure. Correspondence: the real binary over random file sets (2..40 names, nested, non-ASCII, overlapping and single-file globs), "
